@@ -20,6 +20,8 @@ impl ShellValue {
     #[verifier::external_body] pub fn indexed_array_from_literals(l: ArrayLiteral) -> (r: Self) { unimplemented!() }
 }
 pub struct ShellVariable { pub value: ShellValue, pub exported: bool, pub readonly: bool }   // projection (fields checked)
+// what ShellVariable::assign makes of a value (NOT verified here)
+pub uninterp spec fn assigned(v: ShellValue, lit: ShellValueLiteral, append: bool) -> ShellValue;
 impl ShellVariable {
     #[verifier::external_body]
     pub fn new(value: ShellValue) -> (r: Self) ensures r.value == value, !r.exported, !r.readonly { unimplemented!() }
@@ -29,8 +31,12 @@ impl ShellVariable {
     #[verifier::external_body]
     pub fn assign(&mut self, value: ShellValueLiteral, append: bool) -> (r: Result<(), error::Error>)
         ensures final(self).exported == old(self).exported, final(self).readonly == old(self).readonly,
-            old(self).readonly ==> r is Err && *final(self) == *old(self)
+            old(self).readonly ==> r is Err && *final(self) == *old(self),
+            r is Ok ==> final(self).value == assigned(old(self).value, value, append)
     { unimplemented!() }
+    // derived Clone: an equal value (ASSUMED)
+    #[verifier::external_body]
+    pub fn clone(&self) -> (r: Self) ensures r == *self { unimplemented!() }
     #[verifier::external_body]
     pub fn assign_at_index(&mut self, array_index: String, value: String, append: bool) -> (r: Result<(), error::Error>)
         ensures final(self).exported == old(self).exported, final(self).readonly == old(self).readonly,
